@@ -732,3 +732,32 @@ Proof.
 Qed.
 
 End VX.
+
+Print Assumptions v_iter_entries.
+Print Assumptions v_entries_sorted.
+Print Assumptions v_find_filter.
+Print Assumptions v_side_filter.
+Print Assumptions v_value_spec.
+Print Assumptions v_find_value.
+Print Assumptions v_entries_decomp.
+Print Assumptions v_find_virt_prefix.
+Print Assumptions v_find_exact_find.
+Print Assumptions v_find_exact_iff.
+Print Assumptions v_find_exact_full.
+Print Assumptions v_find_lpm_full.
+Print Assumptions v_find_lpm_iff.
+Print Assumptions v_find_lpm_view.
+Print Assumptions v_find_above.
+Print Assumptions v_find_disjoint.
+Print Assumptions v_step_wf.
+Print Assumptions v_reach_wf.
+Print Assumptions v_canon_inhabited.
+Print Assumptions v_find_canon.
+Print Assumptions v_side_canon.
+Print Assumptions v_step_canon.
+Print Assumptions v_reach_canon.
+Print Assumptions v_step_canon_below.
+Print Assumptions v_reach_canon_root.
+Print Assumptions v_side_canon_iff.
+Print Assumptions v_find_canon_iff.
+Print Assumptions view_at_root.
